@@ -127,7 +127,7 @@ CHECKS = {
         category="exploration",
         technique="runtime monitoring: catalog reference model (name -> kind, types, contents) prescribing the outcome of every open/rename/delete/list, with the ownership accountant after every transaction",
         text="Sequences over 8 names and 10 (kind, key, value) instantiations including same-width type pairs: every open (own or foreign types, second open), delete and rename (new/existing/self target, right or wrong kind, while a handle is open) and list must return exactly what the model prescribes; contents follow renames; readers see nothing before commit and nothing of aborted work, re-open tables with foreign types and through the untyped API; the accountant proves deleted tables release their pages. A separate stratum uses user-defined key/value types (same TypeName with another fixed or variable width, another name with the same width) in key and value position: an open is accepted iff name and width agree.",
-        note="Trusted: the catalog model written from the documented error semantics; built-in types only.",
+        note="Trusted: the catalog model written from the documented error semantics; the user-defined types are four hand-written ones.",
         design="5/C17",
     ),
     "C18": dict(
